@@ -43,6 +43,8 @@ func propC19(w *World, r *Report) {
 	RunDupAssign(w, r, fns)
 	checkStableSort(w, r, fns)
 	RunTokenSep(w, r, []string{"opentype/gtab/builder.ExplainGsub", "opentype/gtab/builder.ExplainGpos"})
+	RunBlankLine(w, r, []string{"opentype/gtab/builder.ExplainGsub", "opentype/gtab/builder.ExplainGpos"})
+	RunEscapeLookBehind(w, r)
 	r.Floor("tokensep", 12)
 	RunPrinterKeywords(w, r, []string{"opentype/gtab/builder.ExplainGsub", "opentype/gtab/builder.ExplainGpos"}, "opentype/gtab/builder.Parse")
 	r.Floor("keywords", 8)
